@@ -184,3 +184,89 @@ func c10ParkedThenEnd(r *Run) {
 		settleGoroutines(0)
 	}
 }
+
+// c10BusyWorkersThenEnd: all eight unary workers of a connection are in handlers that wait for their
+// context, a ninth unary request has been read and waits for a worker, a streaming handler is open.
+// THEN the connection ends — by Stop, or by a transport write that fails (one handler is let go and its
+// reply cannot be written). Serve returns, and the streaming handler's context is done.
+func c10BusyWorkersThenEnd(r *Run) {
+	for i, fault := range []string{"stop", "writefail", "stop", "writefail"} {
+		if !r.Want("serve.busy") {
+			return
+		}
+		in := map[string]any{"fault": fault, "state": "8 unary handlers waiting for their context, a ninth request waiting for a worker", "rep": i}
+		r.Progress("serve.busy", in)
+		sc := NewScript(0)
+		sc.Out = make(chan *Rpc, 64)
+		impl := &Impl{}
+		hctx := make(chan context.Context, 1)
+		gate := make(chan struct{})
+		entered := make(chan struct{}, 16)
+		impl.SetUnary(func(ctx context.Context, req []byte) ([]byte, error) {
+			entered <- struct{}{}
+			select {
+			case <-ctx.Done():
+				return nil, ctx.Err()
+			case <-gate:
+				return req, nil
+			}
+		})
+		impl.SetStream(func(m string, ss grpc.ServerStream) error {
+			hctx <- ss.Context()
+			<-ss.Context().Done()
+			return ss.Context().Err()
+		})
+		srv := goat.NewServer("srv")
+		srv.RegisterService(&echoDesc, impl)
+		served := make(chan error, 1)
+		go func() { served <- srv.Serve(context.Background(), sc) }()
+		hdr := func(m string) *goatorepo.RequestHeader {
+			return &goatorepo.RequestHeader{Method: m, Destination: "srv", Source: "c"}
+		}
+		body, _ := goat_marshal(&wrapperspb.BytesValue{Value: []byte("m")})
+		var hc context.Context
+		ok := within(hangTimeout, func() {
+			sc.In <- &Rpc{Id: 1, Header: hdr(mBidi)}
+			hc = <-hctx
+			for k := 0; k < 8; k++ {
+				sc.In <- &Rpc{Id: uint64(2 + k), Header: hdr(mUnary), Body: &goatorepo.Body{Data: body}}
+			}
+			for k := 0; k < 8; k++ {
+				<-entered
+			}
+			sc.In <- &Rpc{Id: 10, Header: hdr(mUnary), Body: &goatorepo.Body{Data: body}} // read, and now waits for a worker
+		})
+		if !ok {
+			r.Violate("serve.busy.setup", "schedule", "the requests were not taken", in, goroutineDump(), nil)
+			srv.Stop()
+			sc.FailRead(io.EOF)
+			return
+		}
+		time.Sleep(30 * time.Millisecond)
+		switch fault {
+		case "stop":
+			srv.Stop()
+		case "writefail":
+			sc.FailWrite(errInjectedWrite)
+			select {
+			case gate <- struct{}{}: // exactly one handler finishes: its reply cannot be written
+			case <-time.After(hangTimeout):
+			}
+		}
+		returned := within(hangTimeout, func() { <-served })
+		r.Eval(fmt.Sprintf("serve.busy/%s/%d", fault, i), true)
+		r.Count("c10.busy-then-end")
+		if !returned {
+			r.Violate("serve.busy.hang", "schedule", "Serve did not return after the connection ended ("+fault+") while all unary workers were busy and a request was waiting for one", in, goroutineDump(), nil)
+		} else {
+			select {
+			case <-hc.Done():
+			case <-time.After(hangTimeout):
+				r.Violate("serve.busy.ctx", "schedule", "Serve returned but the streaming handler's context is still live", in, nil, "done")
+			}
+		}
+		close(gate)
+		sc.FailRead(io.EOF)
+		settleGoroutines(0)
+	}
+}
